@@ -17,10 +17,13 @@ def bound_of(atom):
 
 def plane_slice_rule(chk, repo, clause):
     """_plane_slice: one bounding slice of the mask (2-D) / of every segment mask (3-D)."""
-    f, paths, _ = analyse(repo, 'plane._plane_slice')
     m = S('mask')
-    two = [p for p in returns(paths) if any(c == nf.app('eq', nf.attr(m, 'ndim'), C(2)) and pol for c, pol, _ in p.conds)]
-    three = [p for p in returns(paths) if any(c == nf.app('eq', nf.attr(m, 'ndim'), C(3)) and pol for c, pol, _ in p.conds)]
+    # evaluated for a 2-D and for a 3-D mask (whatever tests of mask.ndim select the branch)
+    f, p2, _ = analyse(repo, 'plane._plane_slice', facts={nf.attr(m, 'ndim').single_atom(): C(2)})
+    _, p3, _ = analyse(repo, 'plane._plane_slice', facts={nf.attr(m, 'ndim').single_atom(): C(3)})
+    not_none = lambda p: not any(pol and fmt(c) == 'is(mask, (None))' for c, pol, _ in p.conds)
+    two = [p for p in returns(p2) if not_none(p)]
+    three = [p for p in returns(p3) if not_none(p)]
     ok2 = len(two) == 1 and isinstance(two[0].ret, Tup) and len(two[0].ret) == 1
     if ok2:
         a = two[0].ret.items[0].single_atom()
@@ -182,11 +185,13 @@ def _fit_tilt_seg(chk, f, p, opd, ptt, clause):
             continue
         k = Poly.atom(seg_i[0])
         rows = nf.index(ptt, Slice(3 * k, 3 * k + 3))
-        okl = ls[0].data['args'][0] == nf.app('T', rows) and ls[0].data['args'][1] in [nf.app('m:ravel', o) for o in opd]
+        # ptt_vector.reshape(size, 3, -1)[k] is a view of rows 3k..3k+2
+        nv = lambda x: nf.block_rows_view(x, ptt, nf.attr(SELF, 'size'), 3) if isinstance(x, (Poly, Tup)) else x
+        okl = nv(ls[0].data['args'][0]) == nf.app('T', rows) and ls[0].data['args'][1] in [nf.app('m:ravel', o) for o in opd]
         det = ', '.join(fmt(a)[:90] for a in ls[0].data['args'])
         for e in evs:
             if e.kind == 'write' and e.data.get('how') == 'setitem' and e.data.get('key') == k and isinstance(e.data.get('value'), Poly):
-                v = e.data['value']
+                v = nv(e.data['value'])
                 masks = [a for a in v.atoms(deep=False) if a[0] == 'idx' and a[2] == k and a[1] in
                          (nf.attr(SELF, 'mask').single_atom(), nf.attr(SELF, '_mask').single_atom())]
                 if len(masks) == 1:
